@@ -110,6 +110,7 @@ type gxNode struct {
 	min, max       string
 	kids           []*gxNode
 	parent         *gxNode
+	implicit       bool // the case implied by a shorthand member of a choice
 }
 
 // defaults: the explicit ones, else the default of the type where it applies
@@ -404,7 +405,7 @@ func (x *gxNode) fixChoices() {
 	if x.kind == "choice" {
 		for i, k := range x.kids {
 			if k.kind != "case" {
-				c := &gxNode{name: k.name, kind: "case", ns: k.ns, parent: x, kids: []*gxNode{k}}
+				c := &gxNode{name: k.name, kind: "case", ns: k.ns, parent: x, kids: []*gxNode{k}, implicit: true}
 				k.parent = c
 				x.kids[i] = c
 			}
@@ -496,7 +497,8 @@ func (c *gxCmp) compare(e *Entry, x *gxNode, parent *Entry) {
 		if got := gxKindOf(e); got != wantKind {
 			c.failf("%s: is a %s, expected %s", p, got, wantKind)
 		}
-		if ns := e.Namespace(); ns == nil || ns.Name != "urn:"+x.ns {
+		// (the namespace of an implied case is not compared: it is not a node any text defines)
+		if ns := e.Namespace(); !x.implicit && (ns == nil || ns.Name != "urn:"+x.ns) {
 			got := "<nil>"
 			if ns != nil {
 				got = ns.Name
@@ -925,4 +927,85 @@ func (g *gxGen) pathFrom(m *gsMod, x *gxNode) string {
 		sb.WriteString("/" + pfx + ":" + s)
 	}
 	return sb.String()
+}
+
+// topNodes: the base tree of a module: containers, an rpc with input and
+// output, a notification.
+func (g *gxGen) topNodes(m *gsMod) {
+	for n := 1 + g.rng.Intn(2); n > 0; n-- {
+		m.stmt.add(gs("container", g.fresh("top"), g.dataNodes(m, "b", 1)...))
+	}
+	if g.rng.Intn(2) == 0 {
+		m.stmt.add(gs("rpc", g.fresh("rpc"),
+			gs("input", "", gs("leaf", g.fresh("in"), gs("type", "string"))),
+			gs("output", "", gs("leaf", g.fresh("out"), gs("type", "string")))))
+	}
+	if g.rng.Intn(2) == 0 {
+		m.stmt.add(gs("notification", g.fresh("ntf"), gsWithout(g.dataNodes(m, "n", 1), "action")...))
+	}
+}
+
+// gsWithout removes every statement of the given keyword (an action cannot
+// stand inside a notification).
+func gsWithout(ss []*gsStmt, kw string) []*gsStmt {
+	var strip func(ss []*gsStmt) []*gsStmt
+	strip = func(ss []*gsStmt) []*gsStmt {
+		var out []*gsStmt
+		for _, s := range ss {
+			if s.kw == kw {
+				continue
+			}
+			s.kids = strip(s.kids)
+			if (s.kw == "container" || s.kw == "list") && len(s.kids) == 0 {
+				s.kids = append(s.kids, gs("leaf", "only", gs("type", "string")))
+			}
+			out = append(out, s)
+		}
+		return out
+	}
+	out := strip(ss)
+	if len(out) == 0 {
+		out = append(out, gs("leaf", "only", gs("type", "string")))
+	}
+	return out
+}
+
+// prefixFor: the prefix under which module m knows the module called name.
+func (g *gxGen) prefixFor(m *gsMod, name string) string {
+	if m.owner().name == name {
+		return m.prefix
+	}
+	for p, im := range m.imports {
+		if im.name == name {
+			return p
+		}
+	}
+	return ""
+}
+
+// nsPath writes the absolute path of x as module m has to write it: every
+// step carries the prefix of the module the node belongs to.
+func (g *gxGen) nsPath(m *gsMod, x *gxNode) string {
+	var steps []string
+	for n := x; n.parent != nil; n = n.parent {
+		steps = append([]string{g.prefixFor(m, n.ns) + ":" + n.name}, steps...)
+	}
+	return "/" + strings.Join(steps, "/")
+}
+
+func gxCollect(x *gxNode, pred func(*gxNode) bool, out *[]*gxNode) {
+	if pred(x) {
+		*out = append(*out, x)
+	}
+	for _, k := range x.kids {
+		gxCollect(k, pred, out)
+	}
+}
+
+// model expands what has been generated so far (augments applied).
+func (g *gxGen) model() *gxExpander {
+	ex := &gxExpander{mods: g.mods}
+	ex.expandAll()
+	ex.applyAugments()
+	return ex
 }
